@@ -2351,3 +2351,150 @@ Proof.
       rewrite EA, <- PR. unfold ranc. fold rt. rewrite PF. reflexivity.
     + rewrite EA. intros x H. right. apply PS. exact H.
 Qed.
+
+(* ------------------------------------------------------------------ main results *)
+Definition generated_only (ks : list cdesc) : Prop := forall k, In k ks -> k_hinit k = None.
+
+Theorem construct_single_inheritance ct c pos kw :
+  wf_table ct -> In c (map k_id ct) ->
+  wfc (anc ct c) -> generated_only (anc ct c) -> key_guard (anc ct c) pos kw ->
+  out_of (construct cur ct c pos kw) = expected ct c pos kw.
+Proof.
+  intros WT Hc W G KG. unfold construct, expected.
+  destruct (tab_inv_all ct WT c Hc) as [_ CH _ _ _ RA _].
+  rewrite RA, (rchain_rch _ CH W). apply construct_chain; assumption.
+Qed.
+
+Lemma expected_post ks pos kw o :
+  generated_only ks -> expected_init ks pos kw = Ok o -> o_post o = post_of ks.
+Proof.
+  intros G H. unfold expected_init in H.
+  destruct (ms ks) as [|m t] eqn:MS; [discriminate|].
+  assert (Hm : In m ks).
+  { unfold ms in MS. destruct (meta_anc_split ks) as [pre [E _]]. rewrite E, MS.
+    apply in_app_iff. right. left. reflexivity. }
+  rewrite (G m Hm) in H.
+  destruct (match key_of ks, pos with
+            | Some k, Some v => if has k kw then Err TypeErr else Ok ((k, v) :: kw)
+            | Some k, None => if has k kw || opt_is (nearest_default (owner ks k) k (m :: t))
+                              then Ok kw else Err TypeErr
+            | None, Some _ => Err TypeErr
+            | None, None => Ok kw end) as [kw1|e]; [|discriminate].
+  destruct (negb (opt_is (ovf_of ks)) && _); [discriminate|].
+  destruct (fold_left (owner_step ks false kw1) (rev t) (Ok ([], []))) as [dh|e]; [|discriminate].
+  destruct (owner_step ks true kw1 (Ok dh) m) as [[d hc]|e]; [|discriminate].
+  destruct (match ovf_of ks with Some o0 => _ | None => Ok d end) as [d'|e]; [|discriminate].
+  injection H as H. subst o. reflexivity.
+Qed.
+
+(* __post_init__ runs exactly once (the one type(self) resolves to), never twice *)
+Theorem post_init_once ct c pos kw s :
+  wf_table ct -> In c (map k_id ct) ->
+  wfc (anc ct c) -> generated_only (anc ct c) -> key_guard (anc ct c) pos kw ->
+  construct cur ct c pos kw = Ok s ->
+  s_post s = match find k_post (anc ct c) with Some k => [k_id k] | None => [] end.
+Proof.
+  intros WT Hc W G KG H.
+  pose proof (construct_single_inheritance ct c pos kw WT Hc W G KG) as T.
+  rewrite H in T. simpl in T. symmetry in T. unfold expected in T.
+  apply (expected_post _ _ _ _ G) in T. exact T.
+Qed.
+
+(* ------------------------------------------------------------------ decidable hypotheses *)
+Definition wf_cls_b (k : cdesc) (t : list cdesc) : bool :=
+  match k_deco k with
+  | None => match k_annots k with [] => true | _ => false end
+  | Some d =>
+      (match d_ovf d with Some (Some o) => negb (memb o (map fst (k_annots k))) | _ => true end)
+      && (match d_key d with
+          | Some (Some x) => memb x (map fst (k_annots k)) || negb (memb x (managed t))
+          | _ => true end)
+  end.
+
+Fixpoint wfc_b (l : list cdesc) : bool :=
+  match l with [] => true | k :: t => wf_cls_b k t && wfc_b t end.
+
+Lemma wfc_b_sound l : wfc_b l = true -> wfc l.
+Proof.
+  induction l as [|k t IH]; [intros _; exact I|]. simpl. intro H. apply andb_prop in H.
+  destruct H as [H1 H2]. split; [|apply IH; exact H2].
+  unfold wf_cls_b in H1. unfold wf_cls, plain_ok. destruct (k_deco k) as [d|].
+  - split; [discriminate|]. intros d' E. injection E as E. subst d'.
+    apply andb_prop in H1. destruct H1 as [HO HK]. split.
+    + intros o EO. rewrite EO in HO. apply memb_false. destruct (memb o _); [discriminate | reflexivity].
+    + intros x EX. rewrite EX in HK. apply orb_prop in HK. destruct HK as [HK|HK].
+      * left. apply memb_In. exact HK.
+      * right. apply memb_false. destruct (memb x (managed t)); [discriminate | reflexivity].
+  - split; [|discriminate]. intros _. destruct (k_annots k); [reflexivity | discriminate].
+Qed.
+
+Fixpoint wf_table_b (ct : list cdesc) : bool :=
+  match ct with
+  | [] => true
+  | k :: older =>
+      negb (memb (k_id k) (map k_id older))
+      && (match k_bases k with
+          | [] => true
+          | [p] => memb p (map k_id older)
+          | _ => false end)
+      && wf_table_b older
+  end.
+
+Lemma wf_table_b_sound ct : wf_table_b ct = true -> wf_table ct.
+Proof.
+  induction ct as [|k older IH]; [intros _; exact I|]. simpl. intro H.
+  apply andb_prop in H. destruct H as [H H3]. apply andb_prop in H. destruct H as [H1 H2].
+  split; [|split; [|apply IH; exact H3]].
+  - apply memb_false. destruct (memb _ _); [discriminate | reflexivity].
+  - destruct (k_bases k) as [|p [|q r]]; [left; reflexivity | | discriminate].
+    right. exists p. split; [reflexivity | apply memb_In; exact H2].
+Qed.
+
+Definition generated_b (ks : list cdesc) : bool :=
+  forallb (fun k => match k_hinit k with None => true | Some _ => false end) ks.
+
+Lemma generated_b_sound ks : generated_b ks = true -> generated_only ks.
+Proof.
+  unfold generated_b, generated_only. intros H k Hk. rewrite forallb_forall in H.
+  specialize (H k Hk). destruct (k_hinit k); [discriminate | reflexivity].
+Qed.
+
+Definition key_guard_b (ks : list cdesc) (pos : option aval) (kw : list (aid * aval)) : bool :=
+  match key_of ks with
+  | None => true
+  | Some k =>
+      accepted ks k
+      && (opt_is pos || has k kw
+          || Bool.eqb (opt_is (nearest_default (owner ks k) k (ms ks)))
+                      (opt_is (nearest_default (owner ks k) k (up_from (fun c => mentions c k) ks))))
+  end.
+
+Lemma key_guard_b_sound ks pos kw : key_guard_b ks pos kw = true -> key_guard ks pos kw.
+Proof.
+  unfold key_guard_b, key_guard. intros H k E. rewrite E in H.
+  apply andb_prop in H. destruct H as [H1 H2]. split; [exact H1|].
+  apply orb_prop in H2. destruct H2 as [H2|H2]; [apply orb_prop in H2; destruct H2 as [H2|H2]|].
+  - left. destruct pos; [discriminate | discriminate].
+  - right. left. exact H2.
+  - right. right. apply eqb_prop. exact H2.
+Qed.
+
+(* all hypotheses of construct_single_inheritance, as one computable test *)
+Definition in_scope (ct : list cdesc) (c : cid) (pos : option aval) (kw : list (aid * aval)) : bool :=
+  wf_table_b ct && memb c (map k_id ct) && wfc_b (anc ct c) && generated_b (anc ct c)
+  && key_guard_b (anc ct c) pos kw.
+
+Theorem construct_in_scope ct c pos kw :
+  in_scope ct c pos kw = true ->
+  out_of (construct cur ct c pos kw) = expected ct c pos kw.
+Proof.
+  unfold in_scope. intro H.
+  apply andb_prop in H. destruct H as [H H5]. apply andb_prop in H. destruct H as [H H4].
+  apply andb_prop in H. destruct H as [H H3]. apply andb_prop in H. destruct H as [H1 H2].
+  apply construct_single_inheritance.
+  - apply wf_table_b_sound. exact H1.
+  - apply memb_In. exact H2.
+  - apply wfc_b_sound. exact H3.
+  - apply generated_b_sound. exact H4.
+  - apply key_guard_b_sound. exact H5.
+Qed.
